@@ -464,9 +464,12 @@ def roi_shape(roi: NdROI) -> Tuple[int, ...]:
             raise ValueError(
                 "Can't determine shape of the slice with open right-hand side."
             )
-        if s.start is None:
-            return _out
-        return _out - s.start
+        _in = 0 if s.start is None else s.start
+        if _in < 0 or _out < 0:
+            raise ValueError(
+                "Can't determine shape of the slice with negative offsets."
+            )
+        return max(0, _out - _in)
 
     if not isinstance(roi, tuple):
         roi = (roi,)
@@ -494,7 +497,8 @@ def roi_is_full(roi: NdROI, shape: Union[int, Tuple[int, ...]]) -> bool:
     def slice_full(s: SomeSlice, n: int) -> bool:
         if isinstance(s, int):
             return n == 1
-        return s.start in (0, None) and s.stop in (n, None)
+        s = _norm_slice(s, n)  # resolve open ends and negative offsets
+        return (s.start, s.stop) == (0, n)
 
     if not isinstance(roi, tuple):
         roi = (roi,)
